@@ -30,18 +30,29 @@ static void same_barcode(Mat& a, Mat& b, int n) {
 static void pairs_now(int n, int* pairOf) { int D[M][M], R[M][M], U[M][M], low[M]; dense_boundary(D, n); reduce(D, n, low, pairOf, R, U); }
 extern "C" void harness() {
   choose_filtration(); for (int i = 0; i < M; i++) idAtPos[i] = i;
-#if VP_Z2
+#if VP_Z2 && defined(VP_NORESERVE)
+  Mat mat;   // no capacity announced: every container grows with the insertions
+#elif VP_Z2
   Mat mat(M);
 #else
   Mat mat(M, VP_P);
 #endif
-  for (int j = 0; j < M; j++) insert_cell(mat, j);
-  ncell = M; nextId = M; inner_removed = false;
+#ifndef VP_LATE
+#define VP_LATE 0      // number of cells of the chosen filtration that are not inserted up front but by later "insert" steps of the walk (insertions interleaved with swaps)
+#endif
+  for (int j = 0; j < M - VP_LATE; j++) insert_cell(mat, j);
+  ncell = M - VP_LATE; nextId = M - VP_LATE; inner_removed = false;
 #if VP_BARCODE
   check_barcode(mat, ncell, "pair matches the independent reduction", "number of bars");
 #endif
   for (int step = 0; step < VP_K; step++) {
-    int kind = vp_fork_int(vp_int("kind", 0, VP_REMOVABLE ? 2 : 0));
+#if VP_FLAVOUR == 1 && VP_IDX != 2
+    for (int q = 0; q < ncell; q++) idAtPos[q] = q; nextId = ncell;   // RU, position indexation: rows move with the columns (swaps, removals), identifier == current position
+#endif
+    int kind = vp_fork_int(vp_int("kind", 0, (VP_REMOVABLE || VP_LATE) ? 2 : 0));
+#if !VP_REMOVABLE
+    vp_assume(kind != 1);
+#endif
     if (kind == 0) {           // transposition of positions i, i+1 (admissible: not face/coface)
       int i = vp_fork_int(vp_int("swap", 0, M - 2)); vp_assume(i + 1 < ncell);
       int a = cell[i], b = cell[i + 1]; vp_assume((a & b) != a);
@@ -62,7 +73,10 @@ extern "C" void harness() {
 #else
       auto ret = mat.vine_swap(idAtPos[i], idAtPos[i + 1]); (void)ret;
 #endif
-      cell[i] = b; cell[i + 1] = a; { int t = unit[i]; unit[i] = unit[i + 1]; unit[i + 1] = t; } { int t = idAtPos[i]; idAtPos[i] = idAtPos[i + 1]; idAtPos[i + 1] = t; }
+      cell[i] = b; cell[i + 1] = a; { int t = unit[i]; unit[i] = unit[i + 1]; unit[i + 1] = t; }
+#if VP_FLAVOUR == 2 || VP_IDX == 2
+      { int t = idAtPos[i]; idAtPos[i] = idAtPos[i + 1]; idAtPos[i + 1] = t; }   // chain matrices / identifier indexation: an identifier stays with its cell
+#endif      /* boundary-type (RU) matrices swap the rows together with the columns: "updated IDIdx if swaps occurred", the identifier of a cell is its current position */
       pairs_now(ncell, newPair);
 #if (VP_IDX == 1 || (VP_FLAVOUR == 1 && VP_IDX == 0)) && !defined(VP_ZEQ1)
       { // truthfulness: true = the two cells kept their bars (barcode in positions = old one with i and i+1 exchanged), false = the barcode in positions is unchanged
@@ -72,11 +86,17 @@ extern "C" void harness() {
 #endif
       vp_reach("swap");
     }
-#if VP_REMOVABLE
+#if VP_REMOVABLE || VP_LATE
     else if (kind == 1) {      // remove the maximal cell at position j
+#if VP_REMOVABLE
       int j = vp_fork_int(vp_int("rmpos", 0, M - 1)); vp_assume(j < ncell && ncell > 1);
+#if !VP_MAPC
+      vp_assume(j == ncell - 1);   // vector column container: only the last cell can be removed
+#endif
       for (int q = j + 1; q < ncell; q++) vp_assume((cell[q] & cell[j]) != cell[j]);   // maximal: no later cell contains it
-#if VP_IDX == 1 || (VP_FLAVOUR == 1 && VP_IDX == 0)
+#if !VP_MAPC
+      mat.remove_last();
+#elif VP_IDX == 1 || (VP_FLAVOUR == 1 && VP_IDX == 0)
       mat.remove_maximal_cell(j);
 #else
       mat.remove_maximal_cell(idAtPos[j]);
@@ -84,6 +104,7 @@ extern "C" void harness() {
       if (j + 1 < ncell) inner_removed = true;
       for (int q = j; q + 1 < ncell; q++) { cell[q] = cell[q + 1]; unit[q] = unit[q + 1]; idAtPos[q] = idAtPos[q + 1]; } ncell--;
       vp_reach("remove_maximal_cell");
+#endif
     } else {                   // insert a new admissible cell at the end
       vp_assume(ncell < M);
 #if VP_FLAVOUR == 1 && VP_REMOVABLE
